@@ -180,7 +180,7 @@ class Gen:
                 out += "_" * r.randrange(1, 3)
         if r.random() < 0.3:
             out += "." + str(r.randrange(0, 1000))
-        if r.random() < 0.2:
+        elif r.random() < 0.2:
             out += "N"
         return out.encode()
 
@@ -198,6 +198,9 @@ class Gen:
         out = b'"""\n' + b"".join(l + b"\n" for l in lines)
         if closing is None:
             out = out[:-1] if lines else out
+            # the inline closing delimiter must not merge with a trailing quote or backslash
+            if out.endswith((b'"', b"\\")) and lines:
+                out += b"x"
             out += b'"""'
         else:
             out += closing + b'"""'
